@@ -123,6 +123,34 @@ def check(ctx, repo, rule, table):
                                   "`%s` is assigned only on some paths through the body of `for %s in %s` (first at line %d) but read at line %d: for "
                                   "an element that takes another path the value of an earlier element (or the one from before the loop) is used (%s)" % (
                                       nm, src(l.target), src(l.iter)[:50], first.lineno, g.line(un), why), "%s:%d" % (p, g.line(un)))
+            # the per-element work has not slipped out of the loop: a call after the loop that uses the loop variable (without re-binding it)
+            # acts on the LAST element only
+            tnames = {y.id for y in ast.walk(l.target) if isinstance(y, ast.Name)}
+            hd_ = [x for x in heads if g.data(x)["ast"] is l]
+            if hd_ and tnames:
+                inside = {id(y) for y in ast.walk(l)}
+                for rn in g.nodes():
+                    ra = g.data(rn).get("ast")
+                    if ra is None or g.data(rn)["kind"] not in ("stmt", "test") or id(ra) in inside:
+                        continue
+                    if any(isinstance(y, (ast.For, ast.While)) and any(z is l for z in ast.walk(y)) for y in [ra]):
+                        continue
+                    exprs = g.data(rn).get("expr") or [ra]
+                    used = {y.id for e_ in exprs for y in ast.walk(e_) if isinstance(y, ast.Name) and isinstance(y.ctx, ast.Load)} & tnames
+                    if not used or not any(isinstance(y, ast.Call) for e_ in exprs for y in ast.walk(e_)):
+                        continue
+                    if not g.reachable(hd_[0], rn):
+                        continue            # not after the loop
+                    # re-bound between the loop and the use?
+                    rebinds = [x for x in g.nodes() if g.data(x)["kind"] in ("stmt", "loop") and g.data(x)["ast"] is not l and id(g.data(x)["ast"]) not in inside
+                               and any(isinstance(y, ast.Name) and isinstance(y.ctx, ast.Store) and y.id in used for y in ast.walk(
+                                   g.data(x)["ast"].target if isinstance(g.data(x)["ast"], ast.For) else g.data(x)["ast"]))]
+                    if rebinds and g.must_pass(hd_[0], rn, rebinds)[0]:
+                        continue
+                    ctx.violation(rule, "%s/for:%s#%d/leak(%s)" % (qual, pat, k, ",".join(sorted(used))),
+                                  "`%s` at line %d uses the loop variable `%s` AFTER the loop `for %s in %s`: it acts on the last element only (%s)" % (
+                                      src(ra)[:70] if not hasattr(ra, "test") else src(ra.test)[:70], g.line(rn), ",".join(sorted(used)), src(l.target),
+                                      src(l.iter)[:50], why), "%s:%d" % (p, g.line(rn)))
             ex = Q.early_exits(l)
             ctx.check(not ex, rule, "%s/for:%s#%d" % (qual, pat, k), "visits every element (%s)" % why,
                       "`%s` at line %d leaves the loop `for %s in %s` before every element is treated (%s)" % (
